@@ -9,6 +9,7 @@ mod embrun;
 mod exec;
 mod faultrun;
 mod handles;
+mod hostile;
 mod joinrun;
 mod lts;
 mod names;
@@ -88,6 +89,11 @@ fn main() {
             let cfgs: Vec<String> = get("cfgs", "mem").split(';').map(|s| s.to_string()).collect();
             println!("{}", awalkrun::run(&lts, &cfgs, get("seed", "1").parse().unwrap(), get("trees", "10").parse().unwrap(), get("dense", "10").parse().unwrap(),
                                          get("pair-frac", "0.2").parse().unwrap(), &PathBuf::from(get("out", "work/awalk"))));
+            0
+        }
+        "hostile" => {
+            let cfgs: Vec<String> = get("cfgs", "alt(zr,mem)").split(';').map(|s| s.to_string()).collect();
+            println!("{}", hostile::run(&cfgs, &get("cases", ""), get("seed", "1").parse().unwrap(), get("sample", "100").parse().unwrap(), &PathBuf::from(get("out", "work/hostile"))));
             0
         }
         "emb" => {
